@@ -334,6 +334,73 @@ fn dummy_execution(report: &Report, tier: Tier) -> (usize, usize) {
     (cases, distinct.len())
 }
 
+/// Finalization prunes every block below the finalized slot, however it is tracked (by slot only or
+/// by its full id): a child begun afterwards on a pruned parent is seeded from the parent's block
+/// hash, on a retained parent from its computed commitment, and a pruned block reports nothing.
+fn finalize_sweep(report: &Report) -> usize {
+    let mut cases = 0;
+    let txs: [Vec<Vec<u8>>; 3] = [vec![vec![b'a']], vec![vec![b'b']], vec![vec![b'a'], vec![b'b']]];
+    for known_mask in 0..8u32 {
+        for f in 1..=4u64 {
+            for p in 0..3usize {
+                for child_known in [false, true] {
+                    cases += 1;
+                    let (tx, mut rx) = mpsc::channel(64);
+                    let mut eng = DummyExecution::new(tx);
+                    let ids: Vec<BlockId> = (0..3).map(|i| (Slot::new(i as u64 + 1), bh(&format!("fin-{i}")))).collect();
+                    let inprog = |i: usize| if known_mask >> i & 1 == 1 { InProgressBlock::Known(ids[i].clone()) } else { InProgressBlock::Pending(ids[i].0) };
+                    let mut expected: Vec<Hash> = Vec::new();
+                    for i in 0..3 {
+                        let parent = if i == 0 { None } else { Some(ids[i - 1].clone()) };
+                        let seed = if i == 0 { as_hash(&alpenglow::crypto::merkle::GENESIS_BLOCK_HASH) } else { expected[i - 1].clone() };
+                        expected.push(fold(&seed, &txs[i]));
+                        eng.begin_block(inprog(i), parent);
+                        eng.execute_transactions(inprog(i), txs[i].iter().cloned().map(Transaction).collect());
+                        eng.end_block(ids[i].clone());
+                    }
+                    while rx.try_recv().is_ok() {}
+                    let fin_id: BlockId = if f <= 3 { ids[f as usize - 1].clone() } else { (Slot::new(4), bh("fin-3")) };
+                    eng.finalize(fin_id);
+                    let replay = json!({"oracle": "finalize-sweep", "tracked_by_full_id_mask": known_mask, "finalized_slot": f, "child_parent": p, "child_tracked_by_full_id": child_known});
+                    // pruned blocks are gone
+                    for i in 0..3 {
+                        eng.end_block(ids[i].clone());
+                        let reported = rx.try_recv().is_ok();
+                        let pruned = (i as u64 + 1) < f;
+                        if pruned && reported {
+                            report.violation(
+                                "C20:pruned-block-still-reports".to_string(),
+                                format!("block of slot {} (tracked by {}) still reports a result after slot {f} was finalized", i + 1, if known_mask >> i & 1 == 1 { "full id" } else { "slot" }),
+                                replay.clone(),
+                            );
+                        }
+                        if !pruned && !reported {
+                            report.violation("C20:retained-block-lost-by-finalization".to_string(), format!("block of slot {} no longer reports after slot {f} was finalized", i + 1), replay.clone());
+                        }
+                    }
+                    // a child begun now
+                    let child: BlockId = (Slot::new(5), bh("fin-child"));
+                    let cin = if child_known { InProgressBlock::Known(child.clone()) } else { InProgressBlock::Pending(child.0) };
+                    eng.begin_block(cin.clone(), Some(ids[p].clone()));
+                    eng.execute_transactions(cin, vec![Transaction(vec![b'c'])]);
+                    eng.end_block(child.clone());
+                    let seed = if (p as u64 + 1) < f { as_hash(&ids[p].1) } else { expected[p].clone() };
+                    let want: StateCommitment = fold(&seed, &[vec![b'c']]).into();
+                    match rx.try_recv() {
+                        Ok(ExecutionEvent::BlockExecuted { result: Ok(r), .. }) if r.state_commitment == want && r.tx_count == 1 => {}
+                        other => report.violation(
+                            "C20:child-of-pruned-parent-not-seeded-from-block-hash".to_string(),
+                            format!("child of the block of slot {} begun after slot {f} was finalized: expected the fold over {} , engine reported {:?}", p + 1, if (p as u64 + 1) < f { "the parent's block hash (parent pruned)" } else { "the parent's computed commitment" }, other.map(|_| "another commitment").ok()),
+                            replay,
+                        ),
+                    }
+                }
+            }
+        }
+    }
+    cases
+}
+
 /// Two versions of one slot in flight at once (one streamed in by dissemination and tracked by slot
 /// only, one repaired and tracked by its full id): each reports its own fold, and a child is seeded
 /// from the version it names as parent.
@@ -429,8 +496,9 @@ pub fn run(tier: Tier) -> i32 {
     let capped = fams.iter().any(|f| f["capped"].as_bool().unwrap());
     let (cases, distinct) = dummy_execution(&report, tier);
     let versions = same_slot_versions(&report);
-    let cases = cases + versions;
-    println!("  dummy-execution: cases={cases} (two-versions-of-one-slot {versions}) distinct commitments={distinct}");
+    let fin_cases = finalize_sweep(&report);
+    let cases = cases + versions + fin_cases;
+    println!("  dummy-execution: cases={cases} (two-versions-of-one-slot {versions}, finalization {fin_cases}) distinct commitments={distinct}");
     let cov = json!({
         "states": states,
         "transitions": transitions,
@@ -440,7 +508,7 @@ pub fn run(tier: Tier) -> i32 {
         "families": fams,
         "dummy_execution_cases": cases,
         "dummy_execution_distinct_commitments": distinct,
-        "samples": [fams[0]["sample"].clone(), {"dummy_execution": "all block trees of up to 3 (thorough 4) blocks with parent in {none, unknown, any earlier block}, transaction sequences over {a,b} of length <= 2, Known/Pending ids, transactions in one call or one per call, sibling executions interleaved; plus two versions of one slot in flight at once (slot-only and full-id tracking, both begin/end orders, child on either)"}],
+        "samples": [fams[0]["sample"].clone(), {"dummy_execution": "all block trees of up to 3 (thorough 4) blocks with parent in {none, unknown, any earlier block}, transaction sequences over {a,b} of length <= 2, Known/Pending ids, transactions in one call or one per call, sibling executions interleaved; plus two versions of one slot in flight at once (slot-only and full-id tracking, both begin/end orders, child on either); plus finalization: a chain of three blocks, each tracked by slot or by full id (all 8 combinations), finalized slot 1..4, then every block asked to report again (pruned ones must be silent) and a child begun on each of the three (seeded from the block hash of a pruned parent, from the computed commitment of a retained one)"}],
     });
     report.finish(cov)
 }
